@@ -11,7 +11,7 @@ import sup, glob
 for pkg in ("vh-mpq", "vh-formats", "vh-ffi"):
     for src in sorted(glob.glob(f"harness/{pkg}/src/bin/*.rs")):
         b = os.path.basename(src)[:-3]
-        sup.build(pkg, b, quiet=False, features="simd" if b == "c04_simd" else None)
+        sup.build(pkg, b, quiet=False, features={"c04_simd": "simd", "c09_async": "async"}.get(b))
 # sanitizer flavor the quick tier uses (C19 runs a slice of its histories under AddressSanitizer); a failure here is not
 # fatal for setup: the check reports that slice as inconclusive
 try:
